@@ -21,15 +21,16 @@ TRUSTED = [
     'inverse / factor workers are obtained by constructing a public GPTNeoXAssignment with the same arguments (its correctness is C12)',
     'factors held by a rank are read through the public KFACBaseLayer.state_dict() of the layer objects found by a reflective walk',
 ]
-THEOREMS = ['gathered_state_complete', 'gathered_state_sound', 'dir_one_file_per_layer', 'load_restores_on_factor_workers', 'recompute_on_factor_workers', 'neox_resume_restores_m1']
+THEOREMS = ['gathered_state_complete', 'gathered_state_sound', 'dir_one_file_per_layer', 'load_restores_on_factor_workers', 'recompute_on_factor_workers', 'neox_resume_restores_m1', 'neox_rollback_restores_m1']
 NOTES = ('Resume equivalence is claimed for model-parallel degree 1; for M > 1 the replicated factor is not restored on ranks that are not '
          'factor workers (known finding D7, Example neox_resume_refuted).')
 
 
-def gen(rng, tier):
+def gen(rng, tier, k=None):
     D, M = rng.choice([(1, 1), (2, 1), (4, 1), (1, 2), (2, 2), (2, 1), (4, 2) if tier == 'thorough' else (2, 2)])
+    many = (k % 6 == 2) if k is not None else rng.random() < 0.15
     layers = []
-    for _ in range(rng.randint(1, 3) if rng.random() < 0.85 else rng.randint(11, 13)):      # > 10 layers: names '10', '11' end with '0', '1'
+    for _ in range(rng.randint(11, 13) if many else rng.randint(1, 3)):      # > 10 layers: names '10', '11' end with '0', '1'
         kind = rng.choice(['col', 'row'])
         nin = M * rng.randint(1, 2) if kind == 'row' else rng.randint(1, 3)
         nout = M * rng.randint(1, 2) if kind == 'col' else rng.randint(1, 3)
@@ -40,7 +41,7 @@ def gen(rng, tier):
     pre = rng.randint(1, 3)
     post = rng.randint(1, 2)
     comp = int(rng.random() < 0.7)
-    dirmode = rng.random() < 0.4
+    dirmode = rng.random() < 0.4 and not (many and k is not None and k % 12 == 2)
     hist = [['train', 1]] * pre + [['save'], ['load', 0, comp]] + [['train', 1]] * post
     base = [['train', 1]] * (pre + post)
     return cfg, hist, base, pre, comp, dirmode
@@ -82,6 +83,50 @@ def roles(cfg, names, dims):
         ga.dist.new_group = saved
 
 
+def rollback_case(rng, tier, seed, k):
+    """Loading an earlier state into an ALREADY USED preconditioner (roll-back) must restore the factors and recompute the second-order
+    data exactly as loading it into a fresh one does: the continued gradients of the two runs must be bit-identical.  Model-parallel
+    degree 1 (for M > 1 the fresh object lacks the replicated factors: D7)."""
+    import torch
+    from harness import neoxrun
+    D = rng.choice([1, 2, 4])
+    layers = []
+    for _ in range(rng.randint(1, 3)):
+        kind = rng.choice(['col', 'row'])
+        layers.append((kind, rng.randint(1, 3), rng.randint(1, 3), int(rng.random() < 0.6)))
+    ius = rng.choice([2, 3])
+    cfg = {'P': 1, 'D': D, 'M': 1, 'layers': layers, 'batch': 2, 'model_seed': rng.randrange(100), 'data_seed': rng.randrange(10 ** 6),
+           'damping': 0.5, 'factor_decay': rng.choice([0.5, 0.75]), 'lr': 1.0, 'kl_clip': None, 'allreduce_bucket_cap_mb': rng.choice([0.0, 25.0]),
+           'factor_update_steps': 1, 'inv_update_steps': ius, 'accumulation_steps': 1}
+    pre = rng.choice([s for s in range(1, 2 * ius) if s % ius != 0])
+    extra, post = rng.randint(1, 3), rng.randint(1, 2)
+    dirmode = rng.random() < 0.3
+    tmp = None
+    if dirmode:
+        tmp = tempfile.mkdtemp(prefix='kv_c18_')
+        cfg['factor_checkpoint_dir'] = os.path.join(tmp, 'factors')
+    hist_a = [['train', 1]] * pre + [['save']] + [['train', 1]] * extra + [['load_same', 0, 1]] + [['train', 1]] * post
+    hist_b = [['train', 1]] * pre + [['save'], ['load', 0, 1]] + [['train', 1]] * post
+    case = {'cfg': dict(cfg), 'history': hist_a, 'seed': seed + k, 'dir_mode': dirmode, 'kind': 'rollback', 'fresh_history': hist_b}
+    probs = []
+    try:
+        wa = neoxrun.run(cfg, hist_a, seed=seed + k)
+        wb = neoxrun.run(cfg, hist_b, seed=seed + k)
+        if not (wa.ok and wb.ok):
+            probs.append(f'run failed: {wa.errors[:1]} {wa.deadlock} {dict(list(wa.exceptions.items())[:2])} {dict(list(wb.exceptions.items())[:2])}'[:400])
+        else:
+            for j in range(post):
+                for r in range(D):
+                    ga = wa.results[r][pre + 1 + extra + 1 + j]['after']; gb = wb.results[r][pre + 2 + j]['after']
+                    if not all(torch.equal(x[0], y[0]) and (x[1] is None or torch.equal(x[1], y[1])) for x, y in zip(ga, gb)):
+                        probs.append(f'continued step {j} rank {r}: gradients after loading into the used preconditioner differ from those after '
+                                     f'loading the same state into a fresh one (second-order data not recomputed from the restored factors?)')
+    finally:
+        if tmp:
+            shutil.rmtree(tmp, ignore_errors=True)
+    return case, probs
+
+
 def run(tier, seed, rng):
     import torch
     from harness import neoxrun
@@ -92,7 +137,16 @@ def run(tier, seed, rng):
     projq = []
     n = 40 if tier == 'quick' else 400
     for k in range(n):
-        cfg, hist, base, pre, comp, dirmode = gen(rng, tier)
+        if k % 5 == 4:
+            case, probs = rollback_case(rng, tier, seed, k)
+            cov.add(case, case['cfg']['D'] > 1 and len(case['cfg']['layers']) >= 2, sample_cap=2)
+            cov.count('kind', 'rollback'); cov.count('dir', case['dir_mode'])
+            if probs:
+                failures.append(Failure(what='; '.join(probs[:3])[:500], case=case, impl=probs[:8], model='NeoxCkpt', oracle_rejects=True,
+                                        correspondence=CORRESPONDENCES[0], theorems=THEOREMS,
+                                        oracle='loading into a used preconditioner == loading into a fresh one (factors restored, second-order data recomputed)'))
+            continue
+        cfg, hist, base, pre, comp, dirmode = gen(rng, tier, k)
         D, M = cfg['D'], cfg['M']
         W = D * M
         tmp = None
